@@ -113,8 +113,22 @@ func (g *Gen) Run() (err error) {
 	for _, fv := range fn.FreeVars {
 		v := g.freshVal("fv:"+fv.Name(), fv.Type())
 		g.vals[fv] = v
-		g.params[fv.Name()] = v
+		// a free variable is the ADDRESS of the captured variable; contracts name the variable itself (eval derefs)
+		if g.freeVars == nil {
+			g.freeVars = map[string]Val{}
+		}
+		g.freeVars[fv.Name()] = v
 		g.typeFacts("true", v)
+		// the address of a captured variable is a real, distinct cell
+		g.assume("true", "(> "+v.S+" 0)")
+		for _, o := range fn.FreeVars {
+			if o == fv {
+				break
+			}
+			if types.Identical(o.Type(), fv.Type()) {
+				g.assume("true", "(not (= "+v.S+" "+g.vals[o].S+"))")
+			}
+		}
 	}
 	// entry-state fields of struct-pointer parameters are part of every counter-model report
 	for _, p := range fn.Params {
@@ -186,8 +200,22 @@ func (g *Gen) RunRegion(loopOrd int) (err error) {
 	for _, fv := range fn.FreeVars {
 		v := g.freshVal("fv:"+fv.Name(), fv.Type())
 		g.vals[fv] = v
-		g.params[fv.Name()] = v
+		// a free variable is the ADDRESS of the captured variable; contracts name the variable itself (eval derefs)
+		if g.freeVars == nil {
+			g.freeVars = map[string]Val{}
+		}
+		g.freeVars[fv.Name()] = v
 		g.typeFacts("true", v)
+		// the address of a captured variable is a real, distinct cell
+		g.assume("true", "(> "+v.S+" 0)")
+		for _, o := range fn.FreeVars {
+			if o == fv {
+				break
+			}
+			if types.Identical(o.Type(), fv.Type()) {
+				g.assume("true", "(not (= "+v.S+" "+g.vals[o].S+"))")
+			}
+		}
 	}
 	g.collectDebugRefs()
 	g.findLoops()
@@ -1159,6 +1187,11 @@ func (g *Gen) execInstr(in ssa.Instruction) {
 	case *ssa.Range:
 		g.vals[x] = sv(x.Type(), g.newRef("iter"))
 		g.rangeOver[x] = x.X
+		if mt, ok := x.X.Type().Underlying().(*types.Map); ok {
+			// ghost: the set of keys this iteration has yielded so far (contracts: rangeseen(k))
+			ks := g.scalarSort(mt.Key())
+			g.heapSet(g.heap, g.rangeSeenName(x), "(Array "+ks+" Bool)", "((as const (Array "+ks+" Bool)) false)")
+		}
 	case *ssa.Next:
 		g.vals[x] = g.next(x)
 	default:
@@ -1557,6 +1590,22 @@ func (g *Gen) mapDelete(m Val, mt *types.Map, k Val) {
 	g.heapSet(g.heap, base+"#dom", "(Array Int (Array "+ks+" Bool))", ite(isNil, dom, newDom))
 }
 
+// rangeSeenName: name of the ghost "visited keys" set of a map range statement (ordinal in block order).
+func (g *Gen) rangeSeenName(r *ssa.Range) string {
+	n := 0
+	for _, b := range g.fn.Blocks {
+		for _, in := range b.Instrs {
+			if x, ok := in.(*ssa.Range); ok {
+				n++
+				if x == r {
+					return fmt.Sprintf("$seen:%d", n)
+				}
+			}
+		}
+	}
+	return "$seen:0"
+}
+
 func (g *Gen) next(x *ssa.Next) Val {
 	src := g.rangeOver[x.Iter.(*ssa.Range)]
 	if x.IsString {
@@ -1570,10 +1619,19 @@ func (g *Gen) next(x *ssa.Next) Val {
 	env.heap = g.heap
 	dom, _, _, _ := g.mapHeaps(env, mt)
 	g.typeFacts(g.curReach, k)
-	g.assume(g.curReach, implies(ok, and(not(eq(m.S, "0")), sel(dom, m.S, k.S))))
+	// each Next yields a key of the map that was not yielded before; when it reports the end, every key of the
+	// map has been yielded (ghost set $seen, readable in contracts as rangeseen(k))
+	ks := g.scalarSort(mt.Key())
+	seenName, seenSort := g.rangeSeenName(x.Iter.(*ssa.Range)), "(Array "+ks+" Bool)"
+	seen := g.heapGet(g.heap, seenName, seenSort)
+	g.assume(g.curReach, implies(ok, and(not(eq(m.S, "0")), sel(dom, m.S, k.S), not(sel(seen, k.S)))))
+	q := g.qvar()
+	domM := g.define("rangedom", "(Array "+ks+" Bool)", ite(eq(m.S, "0"), "((as const (Array "+ks+" Bool)) false)", sel(dom, m.S)))
+	g.assume(g.curReach, implies(not(ok), fmt.Sprintf("(forall ((%s %s)) (! (=> (select %s %s) (select %s %s)) :pattern ((select %s %s)) :pattern ((select %s %s)) :qid range_done))", q, ks, domM, q, seen, q, domM, q, seen, q)))
+	g.heapSet(g.heap, seenName, seenSort, ite(ok, "(store "+seen+" "+k.S+" true)", seen))
 	v := g.mapLookup(env, m.S, mt, k)
 	g.loadFacts(v)
-	g.addAssumption("map iteration: each Next yields some key of the map (order and exhaustiveness not modelled)")
+	g.addAssumption("map iteration: each Next yields a not yet visited key of the map and reports the end only when all keys were visited (order not modelled; keys inserted during the iteration are not modelled)")
 	return Val{K: kStruct, T: x.Type(), Fs: []Val{sv(boolT, ok), k, v}}
 }
 
@@ -1624,17 +1682,31 @@ func (g *Gen) doReturn(x *ssa.Return) {
 }
 
 func (g *Gen) retOrdinal(x *ssa.Return) int {
-	// ordinal of this return among the function's returns in block order
-	n := 0
-	for _, b := range g.fn.Blocks {
+	return retOrdinalOf(g.fn, x)
+}
+
+// retOrdinalOf: ordinal of a return statement among the function's returns in SOURCE order (position in the file);
+// synthetic returns without a position (e.g. the one after a recovered panic) come last, in block order.
+func retOrdinalOf(fn *ssa.Function, x *ssa.Return) int {
+	var rets []*ssa.Return
+	for _, b := range fn.Blocks {
 		for _, in := range b.Instrs {
 			if r, ok := in.(*ssa.Return); ok {
-				n++
-				if r == x {
-					return n
-				}
+				rets = append(rets, r)
 			}
 		}
 	}
-	return n
+	sort.SliceStable(rets, func(i, j int) bool {
+		pi, pj := rets[i].Pos(), rets[j].Pos()
+		if pi.IsValid() != pj.IsValid() {
+			return pi.IsValid()
+		}
+		return pi < pj
+	})
+	for i, r := range rets {
+		if r == x {
+			return i + 1
+		}
+	}
+	return 0
 }
